@@ -188,6 +188,11 @@ Definition i_step_with (s : istate) (o : op) : istate * out :=
       | None => (s, Ok VNoHandle)
       | Some h => (s, lift (vidx (lookup_fuel (iheap s) h + extra) (iheap s) h p) VIdx)
       end
+  | ODup v =>
+      match nth_error (ivars s) v with
+      | None => (s, Ok VNoHandle)
+      | Some h => (mkI (iheap s) (ivars s ++ [h]), Ok VDup)
+      end
   | OAdd v dst i p =>
       match nth_error (ivars s) v with
       | None => (s, Ok VNoHandle)
